@@ -926,6 +926,19 @@ impl Check for WCheck {
                 t += r.range(2500, 5000);
             }
             plan.horizon_ms = plan.horizon_ms.max(t + 3000);
+            if r.chance(0.25) {
+                // total outage: every path dead for longer than the connection time-out plus the
+                // all-failed grace (housekeeping reports failure on every pass), then a reload
+                // that names a fresh address - it must still be applied
+                let t0 = plan.horizon_ms;
+                for l in 0..plan.n_links {
+                    plan.actions.push(TimedAction { t: t0, kind: Action::LinkLoss { link: l, on: true } });
+                }
+                let fresh = crate::lsim::path_ip(plan.n_links);
+                let keep = if r.chance(0.5) { format!("{}\n", crate::lsim::path_ip(0)) } else { String::new() };
+                plan.actions.push(TimedAction { t: t0 + r.range(16_500, 21_000), kind: Action::Reload { text: Some(format!("{keep}{fresh}\n")) } });
+                plan.horizon_ms = t0 + 26_000;
+            }
             plan.actions.sort_by_key(|a| a.t);
         }
         if self.prop == "C09" {
